@@ -78,9 +78,9 @@ ASSUME_D = [
 
 # property -> prog divergence kinds: (kind prefix, program kind or None)
 PROG_KINDS = {
-    "C02": [("args", "flow"), ("results", "flow"), ("calls", "flow"), ("order", "flow"), ("agree", None), ("topo", None), ("deps", None), ("cancel", "flow")],
+    "C02": [("evalorder", "flow"), ("args", "flow"), ("results", "flow"), ("calls", "flow"), ("order", "flow"), ("agree", None), ("topo", None), ("deps", None), ("cancel", "flow")],
     "C01": [("deps", None), ("order", None)],
-    "C03": [("maxin", None), ("gids", None)],
+    "C03": [("maxin", None), ("gids", None), ("oncaller", None)],
     "C04": [("crash", None), ("ret", None)],
     "C05": [("crash", None)],
     "C06": [("quiesce", None)],
